@@ -12,10 +12,13 @@ def matrix(q):
             k = min(keys, 8) if vec == "fixed8" else keys
             el = {"amcvector": "TC4", "smallvector2": "TR", "fixed8": "NTR", "stdvector": "TC4"}[vec]
             m.append(e2.inst("flatset", el, cmp, vec, keys=k, opts=["--hint-only"]))
+    # a comparator with state: every decision of the hinted paths must go through the stored object
+    m.append(e2.inst("flatset", "TC4", "stateful", "amcvector", keys=keys, opts=["--hint-only"]))
+    m.append(e2.inst("flatset", "TR", "stateful", "smallvector2", keys=min(keys, 7), opts=["--hint-only"]))
     return m
 
 
 def run(ctx):
     cov = e1.explore(ctx, matrix(ctx.tier == "quick"), ["C12"], engine="E2", eng=e2.ENG)
-    cov["bound"] = "all subsets of a k-key domain (k=6 quick, 9 thorough) x all hints x all values x 3 hinted operations x {less, greater, coarse} x 4 underlying vectors"
+    cov["bound"] = "all subsets of a k-key domain (k=6 quick, 9 thorough) x all hints x all values x 3 hinted operations x {less, greater, coarse} x 4 underlying vectors, and a stateful comparator over 2"
     return ctx.finish("model_checking", cov, e2.ASSUME)
